@@ -190,7 +190,8 @@ class FailingProcessor:
 
 
 def check_race(spec, ch, res):
-    sname, kind, where = spec
+    sname, kind, where = spec[:3]
+    lp = len(spec) > 3 and bool(spec[3])  # line-level preemption of worker handlers by the executor thread
     late = kind.endswith("-late-teardown")
     kind = kind.replace("-late-teardown", "")
     s = racesim.setup()
@@ -273,7 +274,7 @@ def check_race(spec, ch, res):
     hook = (lambda register: register(FailingProcessor())) if kind == "prep-task-fails" else None
     try:
         r = racesim.run_race(schedule, hosts, cores, behaviour, ch, horizon=HORIZON, on_error=on_error, faults=faults,
-                             rc_factory=rc_factory, track_plugin_hook=hook, linger=90.0 if late else 0.0)
+                             rc_factory=rc_factory, track_plugin_hook=hook, linger=90.0 if late else 0.0, line_preempt=lp)
     finally:
         m.InMemoryMetricsStore.put_value_cluster_level = orig_put
     rc = r.rc
@@ -336,12 +337,14 @@ def check_race(spec, ch, res):
         nontrivial_key=(spec, tuple(ch.choices)),
         outcome_key=(sname, kind, late, rc.first_terminal[0] if rc.first_terminal else None, injected, v[0] if v else "ok", tuple(names)),
     )
+    if lp and any(t[0] == "preempt" and t[1].startswith("line:") for t in r.sim.trace):
+        res.count("executions_with_a_line_level_preemption")
     res.states += r.steps
     if v:
         res.violation(
             f"failure:{v[0]}:{kind}" + (":late-teardown" if late else ""),
             f"{sname} fault={kind}{'-late-teardown' if late else ''}@{where} deviations={ch.deviations} choices={[(i, c) for i, c in enumerate(ch.choices) if c]}: {v[1]}",
-            {"spec": [sname, kind + ("-late-teardown" if late else ""), where], "choices": list(ch.choices)},
+            {"spec": list(spec), "choices": list(ch.choices)},
         )
 
 
@@ -354,6 +357,7 @@ def run(tier, seed):
         # several hops (worker -> driver -> race control) and on the completed-by shape
         deep = [sp for sp in specs if (sp[0] in ("S3", "S1") and sp[1] in ("api-abort", "connection-error", "runner-raises", "store-raises") and sp[2] in ("mid", "last", 3))
                 or sp[1] in ("store-raises-late-teardown",)]
+        deep = [tuple(sp) + (True,) for sp in deep]
         r2 = explore.explore_parallel(check_race, deep, 2, seed=seed, max_exec_per_subtree=250)
         res.merge(r2)
         res.extra["fault_specs_at_bound_2"] = len(deep)
@@ -366,5 +370,5 @@ def run(tier, seed):
 def replay(data):
     res = Result()
     sp = data["spec"]
-    check_race((sp[0], sp[1], sp[2]), explore.Chooser(tuple(data["choices"])), res)
+    check_race(tuple(sp), explore.Chooser(tuple(data["choices"])), res)
     return [v for lst in res.violations.values() for v in lst]
